@@ -516,7 +516,7 @@ pub fn call_shapes<O: Shapes + ?Sized>(rv: &mut Recv<O>, mi: usize, a: &mut A) -
 
 // IntRes -------------------------------------------------------------------------------------
 
-pub const INTRES: [Meth; 7] = [m("ir_io"), m("ir_io_unit"), m("ir_unit_err"), m("ir_fmt"), m("ir_my"), m("ir_vec"), m("ir_plain")];
+pub const INTRES: [Meth; 8] = [m("ir_io"), m("ir_io_unit"), m("ir_unit_err"), m("ir_fmt"), m("ir_my"), m("ir_vec"), m("ir_plain"), m("ir_alias")];
 
 fn io_ret(requested: i32, non_os: bool, e: std::io::Error) -> Ret {
     if !non_os && requested != 0 {
@@ -561,6 +561,19 @@ pub fn call_intres<O: IntRes + ?Sized>(rv: &mut Recv<O>, mi: usize, a: &mut A) -
         6 => match need_mut!(rv).ir_plain(a.i32(0)) {
             Ok(v) => Ret::Ok_(Box::new(Ret::U(v))),
             Err(e) => Ret::Err_(Box::new(Ret::I(e as i64))),
+        },
+        7 => match rv.r().ir_alias(a.i32(0)) {
+            Ok(v) => Ret::Ok_(Box::new(Ret::U(v))),
+            Err(e) => {
+                // an integer-coded error keeps what its coding keeps: the direct call applies the
+                // same (documented, lossy) coding that the crossing applies
+                let e = if crate::world::LAST_SIDE.load(std::sync::atomic::Ordering::SeqCst) == crate::world::TWIN {
+                    <TwoErr as cglue::result::IntError>::from_int_err(cglue::result::IntError::into_int_err(e))
+                } else {
+                    e
+                };
+                Ret::Err_(Box::new(Ret::Multi(vec![Ret::I(e.code as i64), Ret::I(e.detail as i64)])))
+            }
         },
         _ => Ret::NoSuchMethod,
     }
